@@ -172,6 +172,84 @@ class Noh2PDE(Obligation):
         euler_claims(cx, self.geom - 1)
 
 
+class EHEPPDE(Obligation):
+    uses_derivatives = True
+
+    def __init__(self):
+        from . import ehep_common as E
+        self.E = E
+        self.m = H.mod(E.EM)
+        self.id = 'C01.ehep'
+        self.modules = [self.m]
+        self.extra_shim = E.shim_extra()
+        self.functions = [self.m.EscapeOfHEProducts.__init__, self.m.EscapeOfHEProducts._run, self.m.EscapeOfHEProducts.p_rho]
+        self.bounds = 'D, rho_0, up, xtilde, xmax, tmax, x, t symbolic (constructor-admitted); every region I-V = path (point strictly inside the region)'
+        self.max_paths = 100
+
+    def build(self, mk):
+        out, s = self.E.run(mk)
+        out.pop('_corners')
+        return out
+
+    def domain(self, V):
+        return self.E.domain(V)
+
+    def claims(self, cx):
+        reg = cx['_region']
+        if reg not in ('I', 'II', 'III', 'IV', 'V'):
+            return
+        euler_claims(cx, 0, rvar='x', tvar='t', tag='region %s ' % reg)
+        cx.eq('region %s c^2 = gamma p/rho (gamma = 3)' % reg, cx['sound_speed'] * cx['sound_speed'] * cx['density'], 3 * cx['pressure'])
+
+
+class SedovPDE(Obligation):
+    """Sedov interior: the physical fields rho2(t) g(v), u2(t) f(v), p2(t) h(v) at r = r2(t) lambda(v) satisfy the Euler
+    equations.  Derivatives at fixed r / fixed t follow from the parametrisation by the similarity variable v:
+       d/dr|t = (1/(r2 lambda')) d/dv ,   d/dt|r = d/dt|v - (r2' lambda/(r2 lambda')) d/dv ."""
+    uses_derivatives = True
+
+    def __init__(self, geom, gamma, case):
+        from . import C11
+        self.inner = C11.SedovIdentity(geom, gamma, case)
+        self.geom, self.gamma, self.case = geom, gamma, case
+        self.id = 'C01.sedov.%s.g%d.gamma=%s' % (case, geom, gamma)
+        self.modules = self.inner.modules
+        self.extra_shim = self.inner.extra_shim
+        self.functions = self.inner.functions
+        self.bounds = self.inner.bounds
+        self.skip_validation = True
+        self.max_paths = 60
+        self.timeout_s = 30
+        self.timeout_thorough_s = 900
+
+    def build(self, mk):
+        return self.inner.build(mk)
+
+    def domain(self, V):
+        return self.inner.domain(V)
+
+    def claims(self, cx):
+        # logarithmic form (every equation divided by its own field and multiplied by t): with L(F) = dlog F/dv / dlog lambda/dv,
+        #   t (D_t F)/F = t dlog_t F - L(F) t dlog_t r2 ,     r (D_r F)/F = L(F) ,     u t / r = v
+        j = self.geom
+        k = j - 1
+        v, t = cx.p('v'), cx.p('t')
+        fl, fr2 = (lambda c: c['l']), (lambda c: c['r2'])
+        frho, fu, fp = (lambda c: c['rho']), (lambda c: c['u']), (lambda c: c['p'])
+        lv = cx.dlog(fl, 'v')
+        a0 = t * cx.dlog(fr2, 't')                     # t r2'/r2
+        L = lambda f: cx.dlog(f, 'v') / lv
+        Tt = lambda f: t * cx.dlog(f, 't') - L(f) * a0
+        rho, u, p, r = cx['rho'], cx['u'], cx['p'], cx['r2'] * cx['l']
+        cx.eq('similarity velocity: u t = v r', u * t, v * r)
+        cx.zero('mass (log form)', [Tt(frho), v * L(frho), v * L(fu), k * v], tol=1e-4)
+        # momentum: t D_t u/u + v L(u) + (p t^2/(rho r^2 v)) L(p) = 0   (using u = v r/t)
+        cx.zero('momentum (log form)', [Tt(fu), v * L(fu), (p * t * t / (rho * r * r * v)) * L(fp)], tol=1e-4)
+        # energy (entropy form for e = p/((gamma-1) rho)):  t D_t e/e + v L(e) + (gamma-1) (v L(u) + k v) = 0
+        gm1 = cx['gamm1']
+        cx.zero('energy (log form)', [Tt(fp) - Tt(frho), v * (L(fp) - L(frho)), gm1 * v * L(fu), gm1 * k * v], tol=1e-4)
+
+
 def obligations(tier):
     obs = []
     for g in (1, 2, 3):
@@ -185,4 +263,21 @@ def obligations(tier):
     # slice where it must hold as its own obligation so that a different defect is still seen
     for g in (1, 2, 3):
         obs.append(CogPDE('Cog20', g, fix_gamma=Fraction(g + 2, g)))
+    # Sedov interior (similarity functions); fans of the ideal-gas Riemann solver; escape-of-HE-products regions
+    from . import C11
+    gams = [Fraction(7, 5)] if tier == 'quick' else [Fraction(7, 5), Fraction(5, 3), Fraction(2)]
+    for j in (1, 2, 3):
+        for gam in gams:
+            obs.append(SedovPDE(j, gam, 'generic'))
+            for case in ('omega2', 'omega3'):
+                om = C11.SPECIAL[case](j, Fraction(gam))
+                if 0 <= om < j:
+                    obs.append(SedovPDE(j, gam, case))
+    from . import C04
+    for g in (H.G_QUICK if tier == 'quick' else H.G_FULL):
+        for side in ('L', 'R'):
+            o = C04.Fan(side, g)
+            o.id = o.id.replace('C04.fan', 'C01.riemann.fan')
+            obs.append(o)
+    obs.append(EHEPPDE())
     return obs
